@@ -242,7 +242,7 @@ func judgeObservation(w *world, p proxyT, v *verdict, o *proxyObs) (fs []finding
 	if len(unattributed) > 0 {
 		return nil, fmt.Sprintf("virtual-host domains the harness cannot attribute: %v", unattributed)
 	}
-	sc := scopeClass(p, v)
+	_ = scopeClass
 	add := func(key, format string, args ...any) {
 		fs = append(fs, finding{Key: key, Desc: fmt.Sprintf(format, args...)})
 	}
@@ -276,9 +276,20 @@ func judgeObservation(w *world, p proxyT, v *verdict, o *proxyObs) (fs []finding
 		}
 		insts := w.instances(h)
 		allowed := setOf(hv.Allowed)
-		vsdest := "no"
-		if w.isVSDest(h) {
-			vsdest = "yes"
+		// how the hostname could have reached the scope: named as a destination by a VirtualService the
+		// scope may import, or only through the egress host list
+		via := "host-list"
+		if w.isVSDest(h) && len(v.VSMay) > 0 {
+			via = "vs-destination"
+		}
+		if p.Type == "router" && w.isVSDest(h) {
+			// a router may be handed the default scope computed for the sidecars of its namespace,
+			// VirtualService-inferred destinations included
+			for i := range w.VS {
+				if w.VS[i].mesh() && w.vsExported(&w.VS[i], p.NS) {
+					via = "vs-destination"
+				}
+			}
 		}
 
 		// ---- delivered ⊆ may_have
@@ -303,8 +314,7 @@ func judgeObservation(w *world, p proxyT, v *verdict, o *proxyObs) (fs []finding
 			if !anyExported {
 				reason = "not-exported"
 			}
-			add(fmt.Sprintf("leak|surface=%s|proxy=%s|instance-ns=%s|reason=%s|vs-destination=%s",
-				strings.Join(surf, "+"), p.Type, strings.Join(keys(rel), "+"), reason, vsdest),
+			add(leakKey(surf, p, strings.Join(keys(rel), "+"), reason, via),
 				"%s (namespace %s, scope %s) was given %s for %s, which R5 does not allow (%s): cds ports %v, eds %v, listeners %v, vips %v",
 				p.Name, p.NS, v.Scope, strings.Join(surf, "+"), h, reason, intKeys(d.cdsPorts), keys(d.edsAddrs), intKeys(d.tcpRefs), keys(d.vips))
 			continue
@@ -312,7 +322,7 @@ func judgeObservation(w *world, p proxyT, v *verdict, o *proxyObs) (fs []finding
 		// route references (cluster names inside routes) to a host that is neither deliverable nor a
 		// destination written in a VirtualService the scope may import
 		if len(d.routeRefs) > 0 && !hv.May && !(w.isVSDest(h) && len(v.VSMay) > 0) {
-			add(fmt.Sprintf("leak|surface=route-reference|proxy=%s|vs-destination=%s", p.Type, vsdest),
+			add(fmt.Sprintf("leak|what=route-reference|proxy=%s", p.Type),
 				"%s: routes of %v reference a cluster of %s although no imported VirtualService names it", p.Name, keys(d.routeRefs), h)
 		}
 
@@ -380,17 +390,17 @@ func judgeObservation(w *world, p proxyT, v *verdict, o *proxyObs) (fs []finding
 					if d.vips[s.VIP] {
 						surf = append(surf, "rds")
 					}
-					add(fmt.Sprintf("leak|surface=%s|proxy=%s|instance-ns=%s|reason=not-exported|vs-destination=%s", strings.Join(surf, "+"), p.Type, nsRel(p, s.NS), vsdest),
+					add(leakKey(surf, p, nsRel(p, s.NS), "not-exported", via),
 						"%s (namespace %s, scope %s): for %s the instance of namespace %s (exportTo %s) was used although it is not exported to %s; allowed instances %v; cds ports %v eds %v vips %v",
 						p.Name, p.NS, v.Scope, h, s.NS, etName(s.ExportTo), p.NS, hv.Allowed, intKeys(d.cdsPorts), keys(d.edsAddrs), keys(d.vips))
 				} else {
-					add(fmt.Sprintf("wrong-instance|proxy=%s|instance-ns=%s|vs-destination=%s", p.Type, nsRel(p, s.NS), vsdest),
+					add(fmt.Sprintf("wrong-instance|proxy=%s|instance-ns=%s", p.Type, nsRel(p, s.NS)),
 						"%s (namespace %s, scope %s): for %s the instance of namespace %s was used; R5 allows %v; cds ports %v eds %v vips %v",
 						p.Name, p.NS, v.Scope, h, s.NS, hv.Allowed, intKeys(d.cdsPorts), keys(d.edsAddrs), keys(d.vips))
 				}
 			}
 			// imported only through port-bound listeners: no other port may appear
-			if !hv.Must && !hv.ViaVSOnly && vsdest == "no" && len(hv.PortBound) > 0 {
+			if !hv.Must && !hv.ViaVSOnly && via == "host-list" && len(hv.PortBound) > 0 {
 				pb := map[int]bool{}
 				for _, x := range hv.PortBound {
 					pb[x] = true
@@ -462,7 +472,11 @@ func judgeObservation(w *world, p proxyT, v *verdict, o *proxyObs) (fs []finding
 						}
 					}
 				}
-				add(fmt.Sprintf("missing|surface=%s|proxy=%s|scope=%s|service-ns=%s|vs-destination=%s", strings.Join(kinds, "+"), p.Type, sc, strings.Join(keys(rel), "+"), vsdest),
+				what := "routes-or-listeners"
+				if contains(kinds, "cds") || contains(kinds, "eds") {
+					what = "clusters"
+				}
+				add(fmt.Sprintf("missing|what=%s|proxy=%s|service-ns=%s", what, p.Type, strings.Join(keys(rel), "+")),
 					"%s (namespace %s, scope %s): %s is exported to the proxy and imported by a port-unrestricted egress host (instances %v) but is not delivered: %v",
 					p.Name, p.NS, v.Scope, h, hv.Allowed, missing)
 			}
@@ -489,49 +503,52 @@ func judgeObservation(w *world, p proxyT, v *verdict, o *proxyObs) (fs []finding
 		}
 	}
 
-	// ---- VirtualService application (sidecars): the virtual host of the VS host on port 80
-	if p.Type == "sidecar" {
-		for i := range w.VS {
-			vs := &w.VS[i]
-			want := map[string]bool{}
-			for _, dst := range vs.Dests {
-				want[fmt.Sprintf("outbound|%d||%s", dst.Port, dst.Host)] = true
+	// ---- VirtualService application: the virtual host(s) carrying the rule's host as a domain (sidecar:
+	// route "80", the port of the rule's destinations; router: the routes its listeners name)
+	for i := range w.VS {
+		vs := &w.VS[i]
+		want := map[string]bool{}
+		for _, dst := range vs.Dests {
+			want[fmt.Sprintf("outbound|%d||%s", dst.Port, dst.Host)] = true
+		}
+		applied, where := false, ""
+		for _, vh := range o.VHosts {
+			if p.Type == "sidecar" && vh.RouteConfig != "80" {
+				continue
 			}
-			for _, vh := range o.VHosts {
-				if vh.RouteConfig != "80" {
-					continue
-				}
-				isHost := false
-				for _, dom := range vh.Domains {
-					for _, h := range vs.Hosts {
-						if dom == h {
-							isHost = true
-						}
+			isHost := false
+			for _, dom := range vh.Domains {
+				for _, h := range vs.Hosts {
+					if dom == h {
+						isHost = true
 					}
-				}
-				if !isHost {
-					continue
-				}
-				got := setOf(vh.Clusters)
-				applied := true
-				for c := range want {
-					if !got[c] {
-						applied = false
-					}
-				}
-				switch {
-				case applied && !contains(v.VSMay, vs.Name):
-					reason := "not-imported"
-					if !w.vsExported(vs, p.NS) {
-						reason = "not-exported"
-					}
-					add(fmt.Sprintf("rule-leak:virtualservice|proxy=%s|vs-ns=%s|reason=%s", p.Type, nsRel(p, vs.NS), reason),
-						"%s (namespace %s, scope %s): VirtualService %s/%s (exportTo %s) shapes the routes of %s although it is %s", p.Name, p.NS, v.Scope, vs.NS, vs.Name, etName(vs.ExportTo), vh.Name, reason)
-				case !applied && contains(v.VSSure, vs.Name):
-					add(fmt.Sprintf("rule-missing:virtualservice|proxy=%s|scope=%s|vs-ns=%s", p.Type, sc, nsRel(p, vs.NS)),
-						"%s (namespace %s, scope %s): VirtualService %s/%s is exported to the proxy and imported by a port-unrestricted egress host, but virtual host %s routes to %v", p.Name, p.NS, v.Scope, vs.NS, vs.Name, vh.Name, vh.Clusters)
 				}
 			}
+			if !isHost {
+				continue
+			}
+			got := setOf(vh.Clusters)
+			all := true
+			for c := range want {
+				if !got[c] {
+					all = false
+				}
+			}
+			if all {
+				applied, where = true, vh.RouteConfig+"/"+vh.Name
+			}
+		}
+		switch {
+		case applied && !contains(v.VSMay, vs.Name):
+			reason := "not-imported"
+			if !w.vsExported(vs, p.NS) {
+				reason = "not-exported"
+			}
+			add(fmt.Sprintf("rule-leak:virtualservice|proxy=%s|vs-ns=%s|reason=%s", p.Type, nsRel(p, vs.NS), reason),
+				"%s (namespace %s, scope %s): VirtualService %s/%s (exportTo %s, gateways %v) shapes the routes of %s although it is %s", p.Name, p.NS, v.Scope, vs.NS, vs.Name, etName(vs.ExportTo), vs.Gateways, where, reason)
+		case !applied && contains(v.VSSure, vs.Name) && !(p.Type == "sidecar" && containsInt(v.BoundPorts, 80)):
+			add(fmt.Sprintf("rule-missing:virtualservice|proxy=%s|vs-ns=%s", p.Type, nsRel(p, vs.NS)),
+				"%s (namespace %s, scope %s): VirtualService %s/%s (exportTo %s, gateways %v) is exported to the proxy and selected by its scope / gateway server, but no virtual host for %v routes to its destinations", p.Name, p.NS, v.Scope, vs.NS, vs.Name, etName(vs.ExportTo), vs.Gateways, vs.Hosts)
 		}
 	}
 
@@ -620,6 +637,22 @@ func judgeObservation(w *world, p proxyT, v *verdict, o *proxyObs) (fs []finding
 		}
 	}
 	return fs, ""
+}
+
+// leakKey groups leaks by shape: what was delivered (clusters/endpoints, or only routes/listeners),
+// to which kind of proxy, why R5 forbids it, how the hostname could have reached the scope, and -
+// for unexported instances - whether the instance lives in the proxy's own namespace (the
+// namespace-local lookups and the cross-namespace choice are different code paths).
+func leakKey(surf []string, p proxyT, instanceNS, reason, via string) string {
+	what := "routes-or-listeners"
+	if contains(surf, "cds") || contains(surf, "eds") {
+		what = "clusters"
+	}
+	k := fmt.Sprintf("leak|what=%s|proxy=%s|reason=%s|via=%s", what, p.Type, reason, via)
+	if reason == "not-exported" {
+		k += "|instance-ns=" + instanceNS
+	}
+	return k
 }
 
 func containsInt(l []int, x int) bool {
